@@ -357,6 +357,11 @@ def pool_rule(ctx):
 DENSITY_FIELDS = ("x", "log_likelihood", "log_prior", "log_q")
 
 
+def _in_module(ident, mod):
+    m = ident.split(":")[0]
+    return m == mod or m.startswith(mod + ".")
+
+
 def own_rule(ctx, only_module: str | None = None, rule: str = "C10.own", fields=None, strict: bool = False):
     """Who may write into an array: only its owner (rules/own.py).  *fields*: only writes through a local known to
     alias one of these attributes (or of unknown origin) are judged -- C10 cares about coordinates and cached
@@ -395,7 +400,7 @@ def own_rule(ctx, only_module: str | None = None, rule: str = "C10.own", fields=
         return sites, bad
 
     for f in repo.all_functions():
-        if f.ident == PRIMITIVE or (only_module is not None and not f.ident.startswith(only_module + ":")):
+        if f.ident == PRIMITIVE or (only_module is not None and not _in_module(f.ident, only_module)):
             continue
         if f.ident in getattr(repo, "inlined_idents", ()):
             continue  # a new private helper: its statements were inlined into (and are judged in) its callers
@@ -438,7 +443,7 @@ def own_rule(ctx, only_module: str | None = None, rule: str = "C10.own", fields=
                        "torch-namespace transform", disc="helper-fresh")
     # in-place updates through a name bound to an item of a container the function does not own (`t = values[0]; t += v`)
     for f in repo.all_functions():
-        if f.ident == PRIMITIVE or (only_module is not None and not f.ident.startswith(only_module + ":")) or f.ident in getattr(repo, "inlined_idents", ()):
+        if f.ident == PRIMITIVE or (only_module is not None and not _in_module(f.ident, only_module)) or f.ident in getattr(repo, "inlined_idents", ()):
             continue
         o = _full(f)
         for node, desc, root, name in o.elem_sinks:
